@@ -69,6 +69,7 @@ type Conn struct {
 	readCalls    int64
 	// FailWrites makes broker-side writes fail (a peer that vanished without closing).
 	failWrites       bool
+	failNext         int
 	writesAfterClose int64
 	// first frame bookkeeping: once the broker has consumed a complete first frame (the
 	// CONNECT) it owes the connection an answer or a close; until then the connection is not
@@ -152,6 +153,14 @@ func (c *Conn) WriteBlocked() bool {
 	return c.writeBlocked
 }
 
+// FailNextWrites makes the next k writes of the broker to this connection fail (nothing arrives);
+// the connection itself stays open and later writes succeed.
+func (c *Conn) FailNextWrites(k int) {
+	c.mu.Lock()
+	c.failNext = k
+	c.mu.Unlock()
+}
+
 // OnNextWrite arms a one-shot hook that runs at the start of the broker's next write to this
 // connection, outside the connection's lock (so that it may close the client side and wait
 // for the broker to notice): a connection that dies exactly while something is written to it.
@@ -201,6 +210,12 @@ func (c *Conn) Write(p []byte) (int, error) {
 	c.wroteOnce = true
 	if c.clientClosed || c.failWrites {
 		return 0, io.ErrClosedPipe
+	}
+	if c.failNext > 0 {
+		// a transient fault: this write fails, nothing of it arrives, the connection stays usable
+		c.failNext--
+		c.bump()
+		return 0, errors.New("injected transient write error")
 	}
 	c.fromBroker = append(c.fromBroker, p...)
 	c.bump()
